@@ -496,7 +496,8 @@ class IkeSa(object):
         self.chosen_proposal = self._select_best_sa_proposal(self.configuration.proposal, payload_sa)
         # if this is a rekey, hence spi is not empty, send ours (the peer's is the one of the proposal we chose, not of the first one)
         if self.chosen_proposal.spi:
-            self.peer_spi = self.chosen_proposal.spi
+            if old_sk_d is not None:
+                self.peer_spi = self.chosen_proposal.spi
             self.chosen_proposal.spi = self.my_spi
         response_payload_sa = PayloadSA([self.chosen_proposal])
 
